@@ -241,11 +241,13 @@ pub fn campaign(env: &Env, rep: &Report, runs: u64) {
     if subs.is_empty() || rep.stopped() {
         return;
     }
+    WATCHDOG_PAUSED.store(true, std::sync::atomic::Ordering::SeqCst);
     let bin = match build(&env.verif_dir) {
         Ok(b) => b,
         Err(e) => {
             rep.assume(&format!("coverage-guided tier not run: {}", e.lines().last().unwrap_or("")));
             eprintln!("[sv] fuzz tier unavailable: {}", e);
+            WATCHDOG_PAUSED.store(false, std::sync::atomic::Ordering::SeqCst);
             return;
         }
     };
@@ -312,6 +314,7 @@ pub fn campaign(env: &Env, rep: &Report, runs: u64) {
             rep.record_violation(&sub, f, case);
         }
     }
+    WATCHDOG_PAUSED.store(false, std::sync::atomic::Ordering::SeqCst);
     rep.set_extra("libfuzzer_campaigns", Value::Object(all));
     rep.assume("coverage-guided tier: libFuzzer (cargo-fuzz, -s none, sancov edges of the library and the harness) feeds its bytes to the same proptest strategies through the PassThrough RNG and judges every input with the same oracle; -runs and -seed are fixed, the corpus starts from 48 pseudo-random files derived from VERIF_SEED");
 }
